@@ -955,6 +955,13 @@ class Interp:
 
     def ev_Attribute(self, e, env):
         v = self.ev(e.value, env)
+        if isinstance(v, Inst):
+            try:
+                return self.getattr(v, e.attr)
+            except AttributeError as ex:
+                # an object of the ANALYSED program lacks the attribute: that is the program's own AttributeError (objects of the
+                # models lacking an attribute are a gap of the analyser and stay an analyser exception)
+                raise AbstractRaise(AttributeError(f"'{v.cls.name}' object has no attribute '{e.attr}'"), e, list(self.call_trace))
         return self.getattr(v, e.attr)
 
     def getattr(self, v, attr):
